@@ -79,7 +79,8 @@ theorem c04_filter_eq (al : Allowlist) (ks : List Cid) : filterKeys al ks = ks.f
 /-- No store write, exchange request, exchange notification or returned block carries a CID the
 validator rejects — for every history of AddBlock / AddBlocks / GetBlock / GetBlocks / DeleteBlock calls
 (single, batched, session or not: the same functions), every initial store, every exchange behaviour and every
-pattern of blockstore write failures (each `Op` carries its `pf`; attempted writes count too: `Ev.putFail`). -/
+pattern of blockstore write failures and read failures (each `Op` carries its `pf` and `rd`; attempted writes
+count too: `Ev.putFail`). -/
 theorem c04_no_invalid_io (cfg : Cfg) (hfix : cfg.fixed = true) (ops : List Op) (st : Store) :
     ∀ ev ∈ (run cfg st ops).2, evOk cfg.al ev = true :=
   (run_ok cfg hfix ops st).1
@@ -100,8 +101,8 @@ theorem c04_addBlocks_all_or_nothing (cfg : Cfg) (st : Store) (bs : List Blk) (p
 
 /-- GetBlock / AddBlock with a rejected CID touch nothing. -/
 theorem c04_rejected_single (cfg : Cfg) (st : Store) (c : Cid) (d : Data) (ans : Option Blk) (nOk : Bool)
-    (pf : Option Nat) (hbad : valid cfg.al c = false) :
-    getBlock cfg st c ans nOk pf = (st, .verr (validate cfg.al c.code c.len), []) ∧
+    (pf : Option Nat) (rdOk : Bool) (hbad : valid cfg.al c = false) :
+    getBlock cfg st c ans nOk pf rdOk = (st, .verr (validate cfg.al c.code c.len), []) ∧
     addBlock cfg st (c, d) pf = (st, .verr (validate cfg.al c.code c.len), []) := by
   unfold getBlock addBlock
   cases hv : validate cfg.al c.code c.len <;> simp_all [valid]
